@@ -101,6 +101,54 @@ pub fn make_token(s: &TokenSpec) -> ConnectToken {
     }
 }
 
+/// Like make_token, but session keys, xnonce and user data are derived from a wide index (scale cases with
+/// more than 256 distinct tokens).
+pub fn make_token_wide(s: &TokenSpec, n: u32) -> ConnectToken {
+    let mut server_addresses = [None; 32];
+    for (i, a) in s.addrs.iter().enumerate() {
+        server_addresses[i] = Some(*a);
+    }
+    let nb = n.to_le_bytes();
+    let mut c2s = [0x51u8; 32];
+    let mut s2c = [0xA7u8; 32];
+    c2s[..4].copy_from_slice(&nb);
+    s2c[..4].copy_from_slice(&nb);
+    let mut xnonce = [0x33u8; 24];
+    xnonce[..4].copy_from_slice(&nb);
+    let private = VerifPrivateToken {
+        client_id: s.client_id,
+        timeout_seconds: s.timeout,
+        server_addresses,
+        client_to_server_key: c2s,
+        server_to_client_key: s2c,
+        user_data: user_data_wide(n),
+    };
+    let private_data = private.seal(s.protocol, s.expire, &xnonce, &s.key).expect("seal");
+    ConnectToken {
+        client_id: s.client_id,
+        version_info: *b"NETCODE 1.02\0",
+        protocol_id: s.protocol,
+        create_timestamp: s.create,
+        expire_timestamp: s.expire,
+        xnonce,
+        server_addresses,
+        client_to_server_key: c2s,
+        server_to_client_key: s2c,
+        private_data,
+        timeout_seconds: s.timeout,
+    }
+}
+
+pub fn user_data_wide(n: u32) -> [u8; 256] {
+    let mut u = user_data((n & 0xff) as u8);
+    u[1..5].copy_from_slice(&n.to_le_bytes());
+    u
+}
+
+pub fn wide_addr(n: u32) -> SocketAddr {
+    SocketAddr::new(IpAddr::V4(Ipv4Addr::new(172, 20, (n >> 8) as u8, (n & 0xff) as u8)), 30_000 + (n % 20_000) as u16)
+}
+
 pub fn new_client(now: Duration, token: &ConnectToken) -> NetcodeClient {
     NetcodeClient::new(now, ClientAuthentication::Secure { connect_token: token.clone() }).expect("client")
 }
